@@ -48,6 +48,8 @@ type histArg struct {
 	History []int  `json:"history"` // op indexes applied from the zero receiver
 	Op      int    `json:"op"`
 	OpName  string `json:"op_name"`
+	// SizeRule: the value of size.DefaultRule in force for the whole history (nil = the library's initial value)
+	SizeRule *int `json:"size_default_rule,omitempty"`
 }
 
 func (m *machine[T]) replayTo(hist []int) T {
@@ -104,7 +106,14 @@ type bfsResult struct {
 	fix                        bool
 }
 
-func bfs[T comparable](r *mc.Run, w *mc.W, m *machine[T], p *mc.Probe[histArg], maxDepth int) bfsResult {
+func bfs[T comparable](r *mc.Run, w *mc.W, m *machine[T], p *mc.Probe[histArg], maxDepth int, sizeRule ...int) bfsResult {
+	var cfg *int
+	if len(sizeRule) > 0 {
+		cfg = &sizeRule[0]
+		old := size.DefaultRule
+		size.DefaultRule = size.Rule(sizeRule[0])
+		defer func() { size.DefaultRule = old }()
+	}
 	seen := map[T][]int{m.zero: {}}
 	frontier := []T{m.zero}
 	res := bfsResult{}
@@ -119,7 +128,7 @@ func bfs[T comparable](r *mc.Run, w *mc.W, m *machine[T], p *mc.Probe[histArg], 
 			h := seen[s]
 			for k := range m.ops {
 				res.transitions++
-				p.Do(w, histArg{Type: m.typ, History: h, Op: k, OpName: m.ops[k].name})
+				p.Do(w, histArg{Type: m.typ, History: h, Op: k, OpName: m.ops[k].name, SizeRule: cfg})
 				t := s
 				_ = m.ops[k].apply(&t, append([]byte(nil), m.ops[k].in...))
 				if _, ok := seen[t]; !ok {
@@ -294,6 +303,44 @@ func oc(v any, err error) outcome {
 	return o
 }
 
+// acc keeps acceptance and value only (the wrappers of the Unmarshal* methods prefix the message; the messages of the
+// instantiations themselves are compared by the DefaultParser entries).
+func acc(v any, err error) outcome {
+	if err != nil {
+		return outcome{val: "(rejected)"}
+	}
+	return outcome{val: fmt.Sprintf("%+v", v)}
+}
+
+func init() {
+	// the receiver's UnmarshalText on the bytes against the generic parser on the same content as a string (and named types)
+	entries["date.Date.UnmarshalText ~ DefaultParser[string]"] = func(a, _ string) [4]outcome {
+		var d date.Date
+		err := d.UnmarshalText([]byte(a))
+		return [4]outcome{acc(date.DefaultParser(a, 0)), acc(d, err), acc(date.DefaultParser(S(a), 0)), acc(date.DefaultParser(B(a), 0))}
+	}
+	entries["roman.Number.UnmarshalText ~ DefaultParser[string]"] = func(a, _ string) [4]outcome {
+		var d roman.Number
+		err := d.UnmarshalText([]byte(a))
+		return [4]outcome{acc(roman.DefaultParser(a, 0)), acc(d, err), acc(roman.DefaultParser(S(a), 0)), acc(roman.DefaultParser(B(a), 0))}
+	}
+	entries["sem.Ver.UnmarshalText ~ DefaultParser[string]"] = func(a, _ string) [4]outcome {
+		var d sem.Ver
+		err := d.UnmarshalText([]byte(a))
+		return [4]outcome{acc(sem.DefaultParser(a, 0)), acc(d, err), acc(sem.DefaultParser(S(a), 0)), acc(sem.DefaultParser(B(a), 0))}
+	}
+	entries["size.Size.UnmarshalText ~ DefaultParser[string]"] = func(a, _ string) [4]outcome {
+		var d size.Size
+		err := d.UnmarshalText([]byte(a))
+		return [4]outcome{acc(size.DefaultParser(a, 0)), acc(d, err), acc(size.DefaultParser(S(a), 0)), acc(size.DefaultParser(B(a), 0))}
+	}
+	entries["uu.ID.UnmarshalText ~ DefaultParser[string]"] = func(a, _ string) [4]outcome {
+		var d uu.ID
+		err := d.UnmarshalText([]byte(a))
+		return [4]outcome{acc(uu.DefaultParser(a, 0)), acc(d, err), acc(uu.DefaultParser(S(a), 0)), acc(uu.DefaultParser(B(a), 0))}
+	}
+}
+
 var entries = map[string]func(a, b string) [4]outcome{
 	"date.DefaultParser(0)": func(a, _ string) [4]outcome {
 		return [4]outcome{oc(date.DefaultParser(a, 0)), oc(date.DefaultParser([]byte(a), 0)), oc(date.DefaultParser(S(a), 0)), oc(date.DefaultParser(B(a), 0))}
@@ -437,6 +484,11 @@ func main() {
 		deep := !r.Quick()
 		dm, rm, sm, zm, um := dateMachine(deep), romanMachine(deep), semMachine(deep), sizeMachine(deep), uuMachine(deep)
 		pH := mc.NewProbe(r, "history", nil, func(a histArg) (string, string) {
+			if a.SizeRule != nil {
+				old := size.DefaultRule
+				size.DefaultRule = size.Rule(*a.SizeRule)
+				defer func() { size.DefaultRule = old }()
+			}
 			switch a.Type {
 			case dm.typ:
 				return dm.check(a)
@@ -478,6 +530,10 @@ func main() {
 		run(sm.typ, func(w *mc.W) bfsResult { return bfs(r, w, sm, pH, 64) }, len(sm.ops))
 		run(zm.typ, func(w *mc.W) bfsResult { return bfs(r, w, zm, pH, 64) }, len(zm.ops))
 		run(um.typ, func(w *mc.W) bfsResult { return bfs(r, w, um, pH, 64) }, len(um.ops))
+		for rule := 0; rule < 16; rule++ { // the size machine again under every value of size.DefaultRule (which forms UnmarshalText/UnmarshalJSON accept)
+			rule := rule
+			run(fmt.Sprintf("%s with size.DefaultRule=%d", zm.typ, rule), func(w *mc.W) bfsResult { return bfs(r, w, zm, pH, 64, rule) }, len(zm.ops))
+		}
 		r.Sample("history", histArg{Type: "date.Date", History: []int{0}, Op: 7, OpName: dm.ops[7].name})
 
 		// E1 agreement
@@ -494,11 +550,11 @@ func main() {
 			return b
 		}
 		unis := []uni{
-			{[]string{"date.DefaultParser(0)", "date.DefaultParser(RuleDisableBasic)"}, "0129-", q(6, 8), []string{"2024-02-29", "20240229", "2023-02-29", "12345-01-01"}},
-			{[]string{"roman.DefaultParser(0)", "roman.DefaultParser(RuleDisableEmptyAsZero)", "roman.Valid"}, "IVXMivxm", q(5, 6), []string{"MCMXCIV", "mmxxiv"}},
-			{[]string{"sem.Parse", "sem.ParseVersion", "sem.ParseTag", "sem.DefaultParser(RuleDisableTag)"}, "01a-.+v", q(6, 7), []string{"1.2.3-rc.1+b", "v1.2.3", "18446744073709551616.0.0"}},
-			{[]string{"size.DefaultParser(0)", "size.DefaultParser(RuleDisableUnit)", "size.DefaultParser(JSON forms)"}, "01 _kBKi\"{-.", q(5, 6), []string{"1 024 KiB", `{"value":1,"unit":"B"}`, `{"value":1,"unit":"B","x":1}`, `"1KiB"`, `{"value":1}`, `17EiB`}},
-			{[]string{"uu.DefaultParser(0)", "uu.DefaultParser(all rules)"}, "0aF-:", q(4, 5), []string{"ed7059f3-6fc0-4b0c-9b7a-2ea5a0b4b8f1", "URN:uuid:ED7059F3-6FC0-4B0C-9B7A-2EA5A0B4B8F2", "urn:uuid:ed7059f3-6fc0-4b0c-9b7a-2ea5a0b4b8f1"}},
+			{[]string{"date.DefaultParser(0)", "date.DefaultParser(RuleDisableBasic)", "date.Date.UnmarshalText ~ DefaultParser[string]"}, "0129-", q(6, 8), []string{"2024-02-29", "20240229", "2023-02-29", "12345-01-01", "2024-02-29\n", " 2024-02-29\r\n"}},
+			{[]string{"roman.DefaultParser(0)", "roman.DefaultParser(RuleDisableEmptyAsZero)", "roman.Valid", "roman.Number.UnmarshalText ~ DefaultParser[string]"}, "IVXMivxm", q(5, 6), []string{"MCMXCIV", "mmxxiv", "MCMXCIV\n", " mmxxiv\r\n"}},
+			{[]string{"sem.Parse", "sem.ParseVersion", "sem.ParseTag", "sem.DefaultParser(RuleDisableTag)", "sem.Ver.UnmarshalText ~ DefaultParser[string]"}, "01a-.+v", q(6, 7), []string{"1.2.3-rc.1+b", "v1.2.3", "18446744073709551616.0.0", "v1.2.3\n", " 1.2.3-rc.1+b\r\n"}},
+			{[]string{"size.DefaultParser(0)", "size.DefaultParser(RuleDisableUnit)", "size.DefaultParser(JSON forms)", "size.Size.UnmarshalText ~ DefaultParser[string]"}, "01 _kBKi\"{-.", q(5, 6), []string{"1 024 KiB", `{"value":1,"unit":"B"}`, `{"value":1,"unit":"B","x":1}`, `"1KiB"`, `{"value":1}`, `17EiB`}},
+			{[]string{"uu.DefaultParser(0)", "uu.DefaultParser(all rules)", "uu.ID.UnmarshalText ~ DefaultParser[string]"}, "0aF-:", q(4, 5), []string{"ed7059f3-6fc0-4b0c-9b7a-2ea5a0b4b8f1\n", "ed7059f3-6fc0-4b0c-9b7a-2ea5a0b4b8f1", "URN:uuid:ED7059F3-6FC0-4B0C-9B7A-2EA5A0B4B8F2", "urn:uuid:ed7059f3-6fc0-4b0c-9b7a-2ea5a0b4b8f1"}},
 		}
 		// every rule value of the size parser (the messages of the JSON forms quote members and units)
 		for rule := 0; rule < 16; rule++ {
